@@ -120,7 +120,16 @@ loop:
 				if err == nil {
 					break loop
 				}
-				if _, ok := err.(*HaltError); ok {
+				// halt passes through, also on its way out of try bodies
+				e := err
+				for {
+					t, ok := e.(*tryEndError)
+					if !ok {
+						break
+					}
+					e = t.err
+				}
+				if _, ok := e.(*HaltError); ok {
 					break loop
 				}
 				pc, backtrack, err = code.v.(int), false, nil
